@@ -228,6 +228,7 @@ class SMI(Machine):
     # ------------------------------------------------------------------ the model table
     def model(self, c0, args):
         c = strip_generics(c0).replace("'_", "").replace("'n", "")
+        c = re.sub(r'^(?:std|alloc)::(?:rc|sync|boxed)::(Rc|Arc|Box)::', r'\1::', c)
         meth = c.split('::')[-1]
         a0 = args[0] if args else None
         d0 = deref(a0) if args else None
